@@ -12,19 +12,19 @@ TECH = "Coq proof (induction/invariants over a Gallina model) + correspondence c
 CHECKS = {
  "C01": ("proof", "Mask soundness proved in Coq for every instance and every mask-admitted action sequence of the modelled envs (currently %(envs01)s): a finished admitted episode is feasible w.r.t. an independent route-based specification. The env model is tied to the code by comparing masks/done step by step on boundary-tight exact-grid instances, generator instances, solo and batched, and the specification is evaluated in Coq on every completed implementation episode.",
          "Envs without a model yet are not covered by this check (listed in DESIGN.md section 12). Print Assumptions: closed under the global context."),
- "C02": ("proof", "No dead end, done-stability, step totality (no crash on admitted actions) and the step bound proved in Coq by induction over admitted sequences for the modelled envs (%(envs01)s; scheduling/selection envs have their own no-dead-end theorems under C07/C08); correspondence compares mask emptiness, done and step counts, solo and in mixed batches with padding steps.",
+ "C02": ("proof", "No dead end, done-stability, step totality (no crash on admitted actions) and the step bound proved in Coq by induction over admitted sequences for the routing envs (%(envs01)s) and, as units `sched` and `graph`, for FJSP/JSSP/FFSP/SMTWTP (incl. termination of the time-transit loops, the inert no-op/wait of finished rows, instance-level FFSP bound) and FLP/MCP/DPP/MDPP (no inert action exists: equal-quota rows finish together); correspondence compares mask emptiness, done and step counts, solo and in mixed batches with padding steps.",
          "solvableb hypotheses are the minimal ones the proofs force and are evaluated on every generated instance. Closed under the global context."),
- "C03": ("proof", "Reward = objective proved in Coq (gather/roll formulation vs route-wise definition) for the modelled envs (%(envs01)s); correspondence compares the real reward with the model's exactly on the exact stream and within float32 tolerance otherwise.",
+ "C03": ("proof", "Reward = objective proved in Coq (gather/roll formulation vs route-wise definition) for the routing envs (%(envs01)s), and reward = -makespan / -weighted tardiness / -sum of nearest-facility distances / covered weight for FJSP, JSSP, FFSP, SMTWTP, FLP, MCP (units `sched`, `graph`); correspondence compares the real reward with the model's exactly on the exact stream and within float32 tolerance otherwise.",
          "get_distance = Euclidean norm is outside the model (distances are instance data). Closed under the global context."),
- "C04": ("proof", "Padding inertness (a finished row keeps mask/done/reward under any admitted padding) proved in Coq for the modelled envs (%(envs01)s); batch independence is decided by the row model + correspondence: the same episode is replayed solo and at random positions of random batches next to copies and strangers with 0..k padding steps and must give identical masks, finishing step and reward.",
-         "torch row-wise semantics trusted; batch-global constructs of other envs are not modelled yet. Closed under the global context."),
+ "C04": ("proof", "Padding inertness (a finished row keeps mask/done/reward under any admitted padding) proved in Coq for the routing envs (%(envs01)s) and the scheduling envs; every batch-global construct of the code (`td[i].all()`, `batch_to_scalar`, `no_op.any()`, `while step_complete.any()`, `done.all()` guards, FLP `nonzero().view`, `[B] >= [B,1]` done) is written literally in a batched Gallina wrapper and proved equal to the row-wise reading under the invariant that really holds; batch independence of the running code is decided by the row model + correspondence: the same episode is replayed solo and at random positions of random batches next to copies and strangers with 0..k padding steps and must give identical masks, finishing step and reward.",
+         "torch row-wise semantics trusted. Known finding: FLP/MCP rows with different quotas in one batch. Closed under the global context."),
  "C05": ("proof", "Mask completeness proved in Coq for the modelled envs (%(envs01)s): every canonical feasible solution of the independent specification is mask-admitted and complete, with equal objective; correspondence checks model_mask <= impl_mask and, on tiny instances, set equality between mask-reachable complete sequences (exhaustive expansion of the real env) and solutions enumerated from the problem definition.",
          "Closed under the global context."),
  "C06": ("proof", "Checker completeness and soundness (up to its own tolerance) and one rejection lemma per fault kind proved in Coq for the modelled checkers (%(envs06)s); correspondence compares verdicts on mask-made solutions and exhaustive single-fault corruptions.",
          "Tolerance constants as coded. Closed under the global context."),
  "C07": ("proof", "Validity of every mask-admitted complete schedule proved in Coq for FJSP/JSSP (event-driven automaton, mask_no_ops on/off, padded ops), FFSP (discrete-time automaton) and SMTWTP (permutation), with makespan/reward identity, termination of the time-transit loops, no dead end; correspondence compares masks, schedules (start/finish/assignment) and reward along real episodes incl. padded batches and waits; an executable validity decider proved sound is run on every implementation schedule.",
          "Closed under the global context."),
- "C08": ("proof", "Quota/distinctness/allowed-cells, done-exactly-at-quota and bookkeeping (nearest-facility distances, uncovered weights) proved in Coq for FLP, MCP, DPP, MDPP for every instance and admitted order; correspondence compares mask, done, chosen and bookkeeping tensors after every step; known finding: per-row quotas in one batch (no inert action for finished rows).",
+ "C08": ("proof", "Quota/distinctness/allowed-cells, done-exactly-at-quota and bookkeeping (nearest-facility distances, uncovered weights) proved in Coq for FLP, MCP, DPP, MDPP for every instance and admitted order; a store-level model with aliasing proves that repeated and interleaved episodes on the same instance tensors are fresh runs under the code's clone discipline (and refutes the alias-reset / in-place-step variants); correspondence compares mask, done, chosen and bookkeeping tensors after every step, on instances in the generators' exact key format, incl. repeated/interleaved episodes on the same tensors; known finding: per-row quotas in one batch (no inert action for finished rows).",
          "EDA envs are constructed on synthetic .npy data written by the harness (the real data cannot be downloaded); the decap simulator reward is outside the property. Closed under the global context."),
  "C09": ("proof", "Best-so-far bookkeeping proved exact for any operator and any history (cost_bsf = min of costs seen = cost of rec_best, never increases, reward = decrease, telescoping); 2-opt and PDP ruin-repair proved to preserve tour validity (single cycle; pickup before delivery) for every mask-admitted move and for whole runs of any length incl. step_to_solution; reported costs are tour lengths. k-opt (k = 3, 4) is proved exhaustively for n <= 8 / 7 (bound stated in the theorem: partial), larger k and n are covered by the correspondence only. Correspondence compares rec_current, rec_best, visited_time, costs and reward after every step of long random / mask-drawn / improve-then-worsen / policy-produced move sequences (N2S, DACT, NeuOpt as move sources), full mask matrices, and the k-opt builder's support.",
          "k_opt_valid for k >= 3 beyond the bound is not proved; policies enter only as move sources; float32 outside the theorems. Closed under the global context."),
@@ -48,7 +48,7 @@ CHECKS = {
          "mTSP, PCTSP, MDCPDP capacity, TSP, coordinate bounds and MCP distinctness are property-evaluated only; argsort returns a permutation is a hypothesis. Closed under the global context."),
  "C19": ("proof", "PARTIAL. Proved for all sizes: FJSP/JSSP text codec read(write(i)) = i up to padding (word level + character layer), rejected inputs covered explicitly; npz key/batch bookkeeping and CVRP/MTVRP loader normalisation over any ordered field, with the npz byte format as an explicit hypothesis. The codec and loader models are tied to the code by a Coq-evaluated correspondence on written/parsed files incl. 28 kinds of malformed files. NOT provable (no executable model): np.savez/np.load bytes, deepcopy/pickle of environments, Lightning checkpoints, file generators -- these are differentially TESTED (save/load/compare; same masks and rewards along random action sequences; restored policy gives the same greedy actions) and reported as testing in the evidence.",
          "Library I/O behaviour is tested, not proved. Closed under the global context."),
- "C20": ("proof", "Welford count/mean/M2 exactness, sample variance, scaler output, EMA recurrence and bounds, warm-up alpha and convex combination proved in Coq over every ordered field for every history of batches, about definitions regenerated from /repo by a fail-closed ast translator on every run; the translated code is also executed at Qc against the real classes.",
+ "C20": ("proof", "Welford count/mean/M2 exactness, sample variance, scaler output, EMA recurrence and bounds, warm-up alpha and convex combination proved in Coq over every ordered field for every history of batches of ANY SHAPE (a batch is a tensor given as its rows: the code's own `reshape(-1)` is part of the translated definition), about definitions regenerated from /repo by a fail-closed ast translator on every run; the translated code is also executed at Qc against the real classes.",
          "sqrt abstract; float rounding and count=1 outside the theorems; R instance depends on sig_forall_dec, functional_extensionality_dep."),
 }
 SUBST = {"envs01": "CVRP", "envs06": "CVRP, TSPkopt, PDPRuinRepair"}
